@@ -1117,6 +1117,12 @@ class H2Stream:
             if not end_stream:
                 raise ProtocolError("Trailers must have END_STREAM set")
 
+        if end_stream:
+            # The message ends with this header block (no body at all, or
+            # trailers after the body): this is where a content-length that
+            # promised more has to be noticed.
+            self._track_content_length(0, end_stream)
+
         hdr_validation_flags = self._build_hdr_validation_flags(events)
         events[0].headers = self._process_received_headers(
             headers, hdr_validation_flags, header_encoding
